@@ -74,7 +74,7 @@ func (live) Describe() core.EngineInfo {
 		Real:       []string{"goatlang loader, parser, compiler+optimizer, VM (GLOBALFUNC, GLOBALZERO, GLOBALSTRUCT, addMethod, newMethod, Yield), via New/Load/Eval/Call/Set"},
 		Stubs:      []string{"os.DirFS -> SimDisk", "cli.live glue (readline, radovskyb/watcher, goroutines, liveCh) -> session drain with the same behaviour (Load on reload command, Eval otherwise, errors to a stderr sink, drain continues)", "time.Sleep -> Yield + simulated clock", "watcher polling is modelled at generation time: reload events are placed at yields after saves, duplicated, coalesced or delayed"},
 		Assumes:    []string{"entities keep their names and signatures across versions; nothing is removed or re-typed", "a failed load may have applied any part of what it was served (old or served version accepted)", "overlapping loads (a reload landing inside init of a load in progress) leave either version", "a served line that is not byte-identical to a generated line makes its entity unknown until the next clean load"},
-		ProbesWant: []string{"reload_ok", "reload_failed", "reload_depth_1", "reload_depth_2", "reload_depth_3", "fault:torn-save", "fault:spliced-save", "fault:mixed-version-snapshot", "fault:save-during-load", "fault:delete", "obs_d", "obs_fv", "obs_bm", "obs_sf", "obs_im", "obs_iv", "repl_redefine", "set_valued_obs", "reload_identical"},
+		ProbesWant: []string{"reload_ok", "reload_failed", "reload_depth_1", "reload_depth_2", "reload_depth_3", "fault:torn-save", "fault:spliced-save", "fault:mixed-version-snapshot", "fault:save-during-load", "fault:delete", "obs_d", "obs_fv", "obs_bm", "obs_sf", "obs_im", "obs_iv", "obs_hv", "obs_zv", "obs_sa", "repl_redefine", "set_valued_obs", "reload_identical"},
 	}
 }
 
@@ -332,6 +332,7 @@ type liveRun struct {
 	nLo, nHi map[int]int
 	instUp   bool
 	refsUp   map[string]bool // label -> captured
+	hostFV   map[int]goatlang.Value // function values the HOST fetched with Get before reloads
 	poisoned bool
 	loads    []*activeLoad
 
@@ -360,7 +361,7 @@ func (live) Execute(plan any, keep bool) *core.Result {
 	disk := core.NewSimDisk(files, hist)
 	disk.Rich, disk.Chunk, disk.Mute = p.Rich, p.Chunk, !keep
 	run := &liveRun{p: p, w: w, res: res, table: w.lineTable(), infra: map[string]bool{}, ent: map[int]*entState{},
-		zvals: map[int]map[int]bool{}, nLo: map[int]int{}, nHi: map[int]int{}, refsUp: map[string]bool{}, seen: map[string]int{}}
+		zvals: map[int]map[int]bool{}, nLo: map[int]int{}, nHi: map[int]int{}, refsUp: map[string]bool{}, seen: map[string]int{}, hostFV: map[int]goatlang.Value{}}
 	for pk := range w.Pkgs {
 		run.infra[w.pkgClause(pk)] = true
 	}
@@ -468,6 +469,10 @@ func (run *liveRun) step(s *LStep, viaYield int) {
 		if _, err := run.h.Call("main.captureRefs", 0); err == nil {
 			for _, id := range run.w.FV {
 				run.refsUp[fmt.Sprintf("fv%d", id)] = true
+				// the host keeps a reference too (an embedding program caching a callback)
+				if e := run.w.ent(id); e != nil {
+					run.hostFV[id] = run.h.VM.Get(run.w.Pkgs[e.Pkg].Path + "." + e.name())
+				}
 			}
 			for _, id := range run.w.SF {
 				run.refsUp[fmt.Sprintf("sf%d", id)] = true
@@ -492,6 +497,23 @@ func (run *liveRun) step(s *LStep, viaYield int) {
 		_, err := run.h.Call(name, 0)
 		if err != nil && !run.poisoned && !core.IsBudget(err) && !run.anyUnknown() {
 			run.fail("C17/newcode", "call-failed", "calling %s failed although every entity has a loaded definition: %v", name, firstLine(err.Error()))
+		}
+		if s.Kind == "probe" && err == nil {
+			ids := make([]int, 0, len(run.hostFV))
+			for id := range run.hostFV {
+				ids = append(ids, id)
+			}
+			sort.Ints(ids)
+			for _, id := range ids {
+				rets, err := run.h.Func(run.hostFV[id], 1)
+				if err != nil || len(rets) != 1 {
+					if !run.poisoned && !run.anyUnknown() && !core.IsBudget(err) {
+						run.fail("C17/newcode", "host-value-call-failed", "Func on the function value the host fetched with Get before the reloads failed: %v", err)
+					}
+					continue
+				}
+				run.obs("hv", id, rets[0])
+			}
 		}
 		run.abs = append(run.abs, fmt.Sprintf("%s/%d", s.Kind, run.h.MaxDepth))
 	}
@@ -831,7 +853,7 @@ func (run *liveRun) obs(kind string, id int, val goatlang.Value) {
 		return
 	}
 	switch kind {
-	case "d", "fv", "bm", "sf", "im", "iv":
+	case "d", "fv", "bm", "sf", "im", "iv", "hv":
 		st := run.ent[id]
 		if st == nil || st.unknown || run.depUnknown(id, 0) {
 			run.setObs++
@@ -843,7 +865,7 @@ func (run *liveRun) obs(kind string, id int, val goatlang.Value) {
 		ver := (v - id) / 1000
 		if v != tag(ver, id) || !st.vers[ver] {
 			rule := "C17/newcode"
-			what := map[string]string{"d": "a direct call", "fv": "a function value captured before the reload", "bm": "a bound method captured before the reload", "sf": "a function stored in a struct field before the reload", "im": "a method call on an instance created before the reload", "iv": "a variable declared with an initialiser"}[kind]
+			what := map[string]string{"d": "a direct call", "fv": "a function value captured before the reload", "bm": "a bound method captured before the reload", "sf": "a function stored in a struct field before the reload", "im": "a method call on an instance created before the reload", "iv": "a variable declared with an initialiser", "hv": "a function value fetched by the host with Get before the reload, called with Func"}[kind]
 			if kind == "iv" {
 				rule = "C17/reinit"
 			}
